@@ -494,7 +494,7 @@ pub fn process<I: BufRead, O: Write>(
             let substr = uncommented_buf.trim();
             // Before substitution, test the #ifdef
             if substr.starts_with("#ifdef") {
-                let mut parts = substr.split("//").next().unwrap().splitn(2, ' ');
+                let mut parts = substr.split("//").next().unwrap().splitn(2, [' ', '\t']);
                 parts.next().unwrap();
                 let maybe_expr = parts.next().map(|s| s.trim()).and_then(|s| {
                     if s.is_empty() {
@@ -523,7 +523,7 @@ pub fn process<I: BufRead, O: Write>(
                     state = State::Skip;
                 }
             } else if substr.starts_with("#ifndef") {
-                let mut parts = substr.split("//").next().unwrap().splitn(2, ' ');
+                let mut parts = substr.split("//").next().unwrap().splitn(2, [' ', '\t']);
                 parts.next().unwrap();
                 let maybe_expr = parts.next().map(|s| s.trim()).and_then(|s| {
                     if s.is_empty() {
@@ -553,7 +553,7 @@ pub fn process<I: BufRead, O: Write>(
                 }
             } else if substr.starts_with("#undef") {
                 if state == State::Active {
-                    let mut parts = substr.split("//").next().unwrap().splitn(2, ' ');
+                    let mut parts = substr.split("//").next().unwrap().splitn(2, [' ', '\t']);
                     parts.next().unwrap();
                     let maybe_expr = parts.next().map(|s| s.trim()).and_then(|s| {
                         if s.is_empty() {
@@ -580,7 +580,7 @@ pub fn process<I: BufRead, O: Write>(
                 }
             } else if substr.starts_with("#define") {
                 if state == State::Active {
-                    let mut parts = substr.split("//").next().unwrap().splitn(2, ' ');
+                    let mut parts = substr.split("//").next().unwrap().splitn(2, [' ', '\t']);
                     parts.next().unwrap();
                     let maybe_expr = parts.next().map(|s| s.trim()).and_then(|s| {
                         if s.is_empty() {
@@ -706,7 +706,7 @@ pub fn process<I: BufRead, O: Write>(
                 }
                 let substr = new_line.trim();
                 if substr.starts_with('#') {
-                    let mut parts = substr.split("//").next().unwrap().splitn(2, ' ');
+                    let mut parts = substr.split("//").next().unwrap().splitn(2, [' ', '\t']);
                     let name = parts.next().unwrap();
                     let maybe_expr = parts.next().map(|s| s.trim()).and_then(|s| {
                         if s.is_empty() {
